@@ -279,28 +279,135 @@ Proof.
     rewrite G. cbn [render text_of Wi app NLx kwE]. unfold enum_text, ibytes, sp, nlb. rewrite <- !app_assoc. reflexivity.
 Qed.
 
+(* ---------- readonly structs: the marker belongs to the struct it precedes, and to no other ---------- *)
+Definition readonlyT : token := {| kind := 5%N; concrete := [114; 101; 97; 100; 111; 110; 108; 121]%N |}.
+Definition struct_of_ro (nm : bytes) (fl : list (bytes * bytes)) : struct_ :=
+  {| s_name := nm; s_comment := []; s_fields := map field_of fl; s_opcode := 0; s_readonly := true |}.
+
+Lemma top_ro_head F f tail c :
+  top_loop (S F) f [] 0%N false false (mk (res [readonlyT; structT] tail) c false)
+  = bind (read_struct F)
+         (fun st => top_loop F (add_struct f {| s_name := s_name st; s_comment := []; s_fields := s_fields st; s_opcode := 0; s_readonly := true |})
+                             [] 0%N false false) (mk tail structT false).
+Proof.
+  cbn [top_loop]. unfold res, mk. cbn [map app].
+  unfold bind at 1. unfold p_next at 1. cbn [keep rs cur perrs negb].
+  unfold bind at 1. unfold p_tok at 1. cbn [cur kind readonlyT].
+  cbn [N.eqb Pos.eqb kNewline kBlockC kLineC kOpenSq andb orb negb].
+  unfold bind at 1. unfold p_next at 1. cbn [keep rs cur perrs negb].
+  unfold bind at 1. unfold p_kind at 1. cbn [cur kind structT N.eqb Pos.eqb]. reflexivity.
+Qed.
+
+Lemma top_struct_ro nm fl g f tail c :
+  top_loop (S (2 * length fl + S (S g))) f [] 0%N false false (mk (res (readonlyT :: struct_toks nm fl) tail) c false)
+  = top_loop (2 * length fl + S g) (add_struct f (struct_of_ro nm fl)) [] 0%N false false (mk tail nlT false).
+Proof.
+  unfold struct_toks.
+  change (readonlyT :: [structT; idT nm; openT; nlT] ++ fields_toks fl ++ [closeT; nlT])
+    with ([readonlyT; structT] ++ ([idT nm; openT; nlT] ++ fields_toks fl ++ [closeT] ++ [nlT])).
+  rewrite res_app, top_ro_head. unfold bind.
+  replace ([idT nm; openT; nlT] ++ fields_toks fl ++ [closeT] ++ [nlT])
+    with (([idT nm; openT; nlT] ++ fields_toks fl ++ [closeT]) ++ [nlT]) by (rewrite <- !app_assoc; reflexivity).
+  rewrite res_app, read_struct_ok. cbn [s_name s_fields struct_of].
+  replace (2 * length fl + S (S g)) with (S (2 * length fl + S g)) by lia.
+  rewrite top_newline. reflexivity.
+Qed.
+
+Definition ro_text (nm : bytes) (fl : list (bytes * bytes)) : bytes := [114; 101; 97; 100; 111; 110; 108; 121; 32]%N ++ struct_text nm fl.
+
+Lemma fmt_struct_head_ro g nm tail :
+  format_struct (S g) true tab (mk (res [idT nm; openT; nlT] tail) structT false)
+  = format_struct_loop g tab (((([114; 101; 97; 100; 111; 110; 108; 121; 32]%N ++ [115; 116; 114; 117; 99; 116]%N) ++ sp ++ nm) ++ sp ++ [123%N]) ++ nlb) (mk tail nlT false).
+Proof. vm_compute. reflexivity. Qed.
+
+Lemma fmt_struct_ok_ro nm fl g tail :
+  format_struct (S (2 * length fl + S (S g))) true tab (mk (res ([idT nm; openT; nlT] ++ fields_toks fl ++ [closeT]) tail) structT false)
+  = POk (ro_text nm fl) (mk tail closeT false).
+Proof.
+  rewrite res_app, fmt_struct_head_ro, res_app, fmt_fields, fmt_close. unfold ro_text, struct_text. rewrite <- !app_assoc. reflexivity.
+Qed.
+
+Lemma fmt_top_ro_head F out nl tail c :
+  format_loop (S (S F)) out false nl (mk (res [readonlyT; structT] tail) c false)
+  = bind (format_struct F true tab) (fun s => format_loop F ((if nl then out ++ nlb else out) ++ s) false true) (mk tail structT false).
+Proof.
+  cbn [format_loop]. unfold res, mk. cbn [map app].
+  unfold bind at 1. unfold p_next at 1. cbn [keep rs cur perrs negb].
+  unfold bind at 1. unfold p_tok at 1. cbn [cur kind readonlyT].
+  cbn [N.eqb Pos.eqb kOpenSq kLineC kBlockC andb orb negb].
+  unfold bind at 1. unfold p_next at 1. cbn [keep rs cur perrs negb].
+  unfold bind at 1. unfold p_tok at 1. cbn [cur kind structT].
+  cbn [N.eqb Pos.eqb kOpenSq kLineC kBlockC andb orb negb]. reflexivity.
+Qed.
+
+Lemma fmt_top_struct_ro nm fl g out nl tail c :
+  format_loop (S (S (S (2 * length fl + S (S g))))) out false nl (mk (res (readonlyT :: struct_toks nm fl) tail) c false)
+  = format_loop (2 * length fl + S (S g)) ((if nl then out ++ nlb else out) ++ ro_text nm fl) false true (mk tail nlT false).
+Proof.
+  unfold struct_toks.
+  change (readonlyT :: [structT; idT nm; openT; nlT] ++ fields_toks fl ++ [closeT; nlT])
+    with ([readonlyT; structT] ++ ([idT nm; openT; nlT] ++ fields_toks fl ++ [closeT] ++ [nlT])).
+  rewrite res_app, fmt_top_ro_head. unfold bind.
+  replace ([idT nm; openT; nlT] ++ fields_toks fl ++ [closeT] ++ [nlT])
+    with (([idT nm; openT; nlT] ++ fields_toks fl ++ [closeT]) ++ [nlT]) by (rewrite <- !app_assoc; reflexivity).
+  rewrite res_app, fmt_struct_ok_ro, fmt_top_newline. reflexivity.
+Qed.
+
+Definition kwRO : lexeme := W 114%N [101; 97; 100; 111; 110; 108; 121]%N.
+Definition r_item (nm : ident) (fl : list (ident * ident)) : item :=
+  let bfl := map (fun f => (ibytes (fst f), ibytes (snd f))) fl in
+  {| it_toks := readonlyT :: struct_toks (ibytes nm) bfl; it_need := 2 * length bfl + 3; it_fneed := 2 * length bfl + 5;
+     it_upd := fun f => add_struct f (struct_of_ro (ibytes nm) bfl); it_text := ro_text (ibytes nm) bfl |}.
+Definition r_x (nm : ident) (fl : list (ident * ident)) : xitem :=
+  {| x_lex := kwRO :: x_lex (s_x nm fl); x_lay := ([], kwRO) :: (sp, kwS) :: tl (x_lay (s_x nm fl)) |}.
+
+Lemma r_item_ok nm fl : ident_ok nm -> Forall (fun f => ident_ok (fst f) /\ ident_ok (snd f)) fl -> item_ok (r_item nm fl) (r_x nm fl).
+Proof.
+  intros Hn Hf. pose proof (s_item_ok nm fl Hn Hf) as Hs. constructor.
+  - intros g f tail c. cbn [r_item it_need it_toks it_upd]. eexists. split; [|
+      replace (2 * length (map (fun f0 : ident * ident => (ibytes (fst f0), ibytes (snd f0))) fl) + 3 + g)
+        with (S (2 * length (map (fun f0 : ident * ident => (ibytes (fst f0), ibytes (snd f0))) fl) + S (S g))) by lia; apply top_struct_ro]. lia.
+  - intros g out nl tail c. cbn [r_item it_fneed it_toks it_text]. eexists. split; [|
+      replace (2 * length (map (fun f0 : ident * ident => (ibytes (fst f0), ibytes (snd f0))) fl) + 5 + g)
+        with (S (S (S (2 * length (map (fun f0 : ident * ident => (ibytes (fst f0), ibytes (snd f0))) fl) + S (S g))))) by lia; apply fmt_top_struct_ro]. lia.
+  - cbn [r_x x_lex r_item it_toks map]. rewrite (ok_toks _ _ Hs). reflexivity.
+  - cbn [r_x x_lex]. constructor; [cbn [lex_ok kwRO]; split; [reflexivity|repeat constructor]|exact (ok_lex _ _ Hs)].
+  - cbn [r_item it_need it_fneed it_toks length]. unfold struct_toks. rewrite !app_length, fields_toks_len. cbn [length]. lia.
+  - cbn [r_x x_lay x_lex s_x tl app map]. pose proof (ok_lay _ _ Hs) as H. cbn [s_x x_lay x_lex app map] in H. injection H as H. rewrite H. reflexivity.
+  - assert (Hsp : hws sp) by (repeat constructor). assert (Hnil : hws []) by constructor.
+    cbn [r_x x_lay s_x tl app]. pose proof (ok_hws _ _ Hs) as H. cbn [s_x x_lay app] in H. inversion H; subst. constructor; [assumption|]. constructor; assumption.
+  - intros rest Hr. cbn [r_x x_lay s_x tl app]. pose proof (ok_sep _ _ Hs rest Hr) as H. cbn [s_x x_lay app] in H.
+    cbn [sep_ok needs_end kwRO kwS] in H |- *. destruct H as [_ H]. split; [left; discriminate|]. split; [left; discriminate|exact H].
+  - intros t. pose proof (ok_render _ _ Hs t) as H. cbn [s_x x_lay app s_item it_text] in H.
+    cbn [r_x x_lay s_x tl app r_item it_text]. cbn [render text_of kwS app] in H. cbn [render text_of kwRO kwS app]. rewrite H.
+    unfold ro_text, sp. cbn [app]. reflexivity.
+Qed.
+
 (* ================= schemas of structs, messages and enums ================= *)
 Inductive sdefn :=
 | SStruct (nm : ident) (fl : list (ident * ident)) (blank : nat)
+| SReadonly (nm : ident) (fl : list (ident * ident)) (blank : nat)
 | SMessage (nm : ident) (fl : list mfdef) (blank : nat)
 | SEnum (nm : ident) (ml : list edef) (blank : nat).
 
 Definition sdefn_ok (d : sdefn) : Prop :=
   match d with
-  | SStruct nm fl _ => ident_ok nm /\ Forall (fun f => ident_ok (fst f) /\ ident_ok (snd f)) fl
+  | SStruct nm fl _ | SReadonly nm fl _ => ident_ok nm /\ Forall (fun f => ident_ok (fst f) /\ ident_ok (snd f)) fl
   | SMessage nm fl _ => ident_ok nm /\ Forall (fun f => idx_ok (fst f) /\ ident_ok (fst (snd f)) /\ ident_ok (snd (snd f))) fl /\ mfs_ok [] (map bmf fl)
   | SEnum nm ml _ => ident_ok nm /\ Forall (fun m => ident_ok (fst m) /\ idx_ok (snd m)) ml /\ ems_ok (map bem ml)
   end.
 Definition xel_of (d : sdefn) : xel :=
   match d with
   | SStruct nm fl k => (s_item nm fl, s_x nm fl, k)
+  | SReadonly nm fl k => (r_item nm fl, r_x nm fl, k)
   | SMessage nm fl k => (m_item nm fl, m_x nm fl, k)
   | SEnum nm ml k => (e_item nm ml, e_x nm ml, k)
   end.
 Lemma xel_of_ok d : sdefn_ok d -> xel_ok (xel_of d).
 Proof.
-  destruct d as [nm fl k|nm fl k|nm ml k]; cbn [sdefn_ok xel_of xel_ok].
+  destruct d as [nm fl k|nm fl k|nm fl k|nm ml k]; cbn [sdefn_ok xel_of xel_ok].
   - intros [A B]. now apply s_item_ok.
+  - intros [A B]. now apply r_item_ok.
   - intros (A & B & C). now apply m_item_ok.
   - intros (A & B & C). now apply e_item_ok.
 Qed.
@@ -322,14 +429,14 @@ Qed.
 
 (* what the File is, written out: each kind of definition in source order *)
 Lemma schema_file_spec dl :
-  structs (schema_file dl) = flat_map (fun d => match d with SStruct nm fl _ => [struct_of (ibytes nm) (map (fun f => (ibytes (fst f), ibytes (snd f))) fl)] | _ => [] end) dl /\
+  structs (schema_file dl) = flat_map (fun d => match d with SStruct nm fl _ => [struct_of (ibytes nm) (map (fun f => (ibytes (fst f), ibytes (snd f))) fl)] | SReadonly nm fl _ => [struct_of_ro (ibytes nm) (map (fun f => (ibytes (fst f), ibytes (snd f))) fl)] | _ => [] end) dl /\
   messages (schema_file dl) = flat_map (fun d => match d with SMessage nm fl _ => [message_of (ibytes nm) (map bmf fl)] | _ => [] end) dl /\
   enums (schema_file dl) = flat_map (fun d => match d with SEnum nm ml _ => [enum_of (ibytes nm) (map bem ml)] | _ => [] end) dl /\
   unions (schema_file dl) = [] /\ consts (schema_file dl) = [] /\ imports (schema_file dl) = [] /\ gopackage (schema_file dl) = [].
 Proof.
   unfold schema_file.
   assert (G : forall dl f,
-    structs (gfile (map xe_el (map xel_of dl)) f) = structs f ++ flat_map (fun d => match d with SStruct nm fl _ => [struct_of (ibytes nm) (map (fun f => (ibytes (fst f), ibytes (snd f))) fl)] | _ => [] end) dl /\
+    structs (gfile (map xe_el (map xel_of dl)) f) = structs f ++ flat_map (fun d => match d with SStruct nm fl _ => [struct_of (ibytes nm) (map (fun f => (ibytes (fst f), ibytes (snd f))) fl)] | SReadonly nm fl _ => [struct_of_ro (ibytes nm) (map (fun f => (ibytes (fst f), ibytes (snd f))) fl)] | _ => [] end) dl /\
     messages (gfile (map xe_el (map xel_of dl)) f) = messages f ++ flat_map (fun d => match d with SMessage nm fl _ => [message_of (ibytes nm) (map bmf fl)] | _ => [] end) dl /\
     enums (gfile (map xe_el (map xel_of dl)) f) = enums f ++ flat_map (fun d => match d with SEnum nm ml _ => [enum_of (ibytes nm) (map bem ml)] | _ => [] end) dl /\
     unions (gfile (map xe_el (map xel_of dl)) f) = unions f /\ consts (gfile (map xe_el (map xel_of dl)) f) = consts f /\
@@ -337,7 +444,7 @@ Proof.
   { clear. induction dl as [|d dl IH]; intros f; [cbn; rewrite !app_nil_r; repeat split|].
     cbn [map gfile fold_left flat_map]. destruct (IH (it_upd (fst (xe_el (xel_of d))) f)) as (A & B & C & D & E & F & G0).
     unfold gfile in *. rewrite A, B, C, D, E, F, G0.
-    destruct d as [nm fl k|nm fl k|nm ml k]; cbn [xel_of xe_el fst snd s_item m_item e_item it_upd add_struct add_message add_enum structs messages enums unions consts imports gopackage app];
+    destruct d as [nm fl k|nm fl k|nm fl k|nm ml k]; cbn [xel_of xe_el fst snd s_item r_item m_item e_item it_upd add_struct add_message add_enum structs messages enums unions consts imports gopackage app];
       rewrite <- ?app_assoc, ?app_nil_r; repeat split; reflexivity. }
   destruct (G dl file0) as (A & B & C & D & E & F & G0). cbn [file0 structs messages enums unions consts imports gopackage app] in *. repeat split; assumption.
 Qed.
